@@ -198,6 +198,14 @@ def run_impl(asm, workdir, prio=None):
         warnings.simplefilter("ignore")
         mesh.assemble()
     # vertices moved after assembly (what an optimizer does): every wire is graded on the length it has when the mesh is written
+    # - also when the mesh was written once already on the lengths it had before (chosen by the assembly, so replays agree)
+    if gc.life_variant(asm) in (1, 3, 4):
+        try:
+            with warnings.catch_warnings():
+                warnings.simplefilter("ignore")
+                mesh.write(os.path.join(workdir, "bmd4_first_%d" % os.getpid()))
+        except Exception:  # noqa: BLE001  (a refused first write is part of the life)
+            pass
     for vi, d in getattr(asm, "moves", []):
         vs = mesh.vertex_list.vertices
         if vi < len(vs):
